@@ -7,6 +7,8 @@ Open Scope Z_scope.
 
 (* ------------------------------------------------------------------ leaves *)
 Lemma lg_early_return_eq : lg_early_return = true. Proof. reflexivity. Qed.
+(* holds on the tree with `if cube_index is None: cube_index = 0` in load_globals; on the tree without it this lemma fails *)
+Lemma lg_cube_default_eq : lg_cube_default_first_plane = true. Proof. reflexivity. Qed.
 Lemma lg_stages_eq : lg_stages = [1; 7; 2; 3; 4; 5; 6; 8; 9; 10; 11; 12; 2]. Proof. reflexivity. Qed.
 Lemma lg_bane_needed_eq : forall r b, lg_bane_needed r b = negb (r && b). Proof. reflexivity. Qed.
 Lemma lg_forced_rms_arg_eq : lg_forced_rms_arg = 2. Proof. reflexivity. Qed.
@@ -49,7 +51,7 @@ Lemma suffixes_eq : save_suffix_bkg = aux_suffix_bkg /\ save_suffix_rms = aux_su
   aux_suffix_bkg = "_bkg.fits"%string /\ aux_suffix_rms = "_rms.fits"%string /\ aux_suffix_mask = ".mim"%string.
 Proof. repeat split. Qed.
 
-Local Opaque lg_early_return lg_stages lg_bane_needed lg_forced_rms_arg lg_forced_bkg_arg lg_repl1_cond lg_repl1_map lg_repl1_from
+Local Opaque lg_early_return lg_cube_default_first_plane lg_stages lg_bane_needed lg_forced_rms_arg lg_forced_bkg_arg lg_repl1_cond lg_repl1_map lg_repl1_from
   lg_repl2_cond lg_repl2_map lg_repl2_from lg_sub_operand lg_curve_size lg_curve_peak lg_curve_trough lg_curve_trough_last
   lg_mask_missing_file_is_none mk_fill1_cond mk_fill1_map mk_fill1_from mk_fill2_cond mk_fill2_map mk_fill2_from mk_skip_bane
   mk_box_size mk_bane_result_bkg_first mk_take1_cond mk_take1_map mk_take1_from mk_take2_cond mk_take2_map mk_take2_from
@@ -169,19 +171,19 @@ Proof.
 Qed.
 
 (* complete description of a call on an object without data *)
-Lemma load_globals_char : forall s0 inp s ok, s_img s0 = None -> load_globals bane s0 inp = (s, ok) ->
-  match select inp with
+Lemma load_globals_gen_char : forall d s0 inp s ok, s_img s0 = None -> load_globals_gen bane d s0 inp = (s, ok) ->
+  match select_gen d inp with
   | None => s = s0 /\ ok = false
   | Some raw =>
     let crv := if i_do_curve inp then Some (curvature raw) else None in
     if ok then files_ok inp raw /\
       s = mkState (Some (img_sub raw (bkg_src inp raw))) (Some (bkg_src inp raw)) (Some (rms_src inp raw)) crv
-                  (region_of (i_mask inp)) (i_ci inp)
+                  (region_of (i_mask inp)) (eff_ci_gen d (i_ci inp))
     else ~ files_ok inp raw /\ s_img s = Some raw
   end.
 Proof.
-  intros s0 inp s ok H0. unfold load_globals. rewrite H0. leaves. cbn [is_some andb].
-  destruct (select inp) as [raw|]; [|intro H; injection H as <- <-; split; reflexivity].
+  intros d s0 inp s ok H0. unfold load_globals_gen. rewrite H0. leaves. cbn [is_some andb].
+  destruct (select_gen d inp) as [raw|]; [|intro H; injection H as <- <-; split; reflexivity].
   unfold replace, files_ok, bkg_src, rms_src. leaves.
   destruct (i_bkgin inp) as [fb|] eqn:Eb; destruct (i_rmsin inp) as [fr|] eqn:Er; cbn [is_some andb negb pick Z.eqb Pos.eqb];
     rewrite ?make_bkg_rms_eq.
@@ -207,10 +209,22 @@ Proof.
   - intro H. injection H as <- <-. cbn. split; [split; intros f Hf; discriminate | reflexivity].
 Qed.
 
+Lemma load_globals_char : forall s0 inp s ok, s_img s0 = None -> load_globals bane s0 inp = (s, ok) ->
+  match select inp with
+  | None => s = s0 /\ ok = false
+  | Some raw =>
+    let crv := if i_do_curve inp then Some (curvature raw) else None in
+    if ok then files_ok inp raw /\
+      s = mkState (Some (img_sub raw (bkg_src inp raw))) (Some (bkg_src inp raw)) (Some (rms_src inp raw)) crv
+                  (region_of (i_mask inp)) (eff_ci (i_ci inp))
+    else ~ files_ok inp raw /\ s_img s = Some raw
+  end.
+Proof. exact (load_globals_gen_char lg_cube_default_first_plane). Qed.
+
 Lemma success_char : forall inp s, globals bane inp = (s, true) ->
   exists raw, select inp = Some raw /\ files_ok inp raw /\
     s = mkState (Some (img_sub raw (bkg_src inp raw))) (Some (bkg_src inp raw)) (Some (rms_src inp raw))
-                (if i_do_curve inp then Some (curvature raw) else None) (region_of (i_mask inp)) (i_ci inp).
+                (if i_do_curve inp then Some (curvature raw) else None) (region_of (i_mask inp)) (eff_ci (i_ci inp)).
 Proof.
   intros inp s H. apply load_globals_char in H; [|reflexivity].
   destruct (select inp) as [raw|]; [|destruct H; discriminate]. exists raw. destruct H as [H1 H2]. repeat split; try apply H1. exact H2.
@@ -254,7 +268,7 @@ Qed.
 
 (* the early return: an object that holds data ignores every later request *)
 Lemma reload_is_noop : forall s0 inp, s_img s0 <> None -> load_globals bane s0 inp = (s0, true).
-Proof. intros s0 inp H. unfold load_globals. leaves. destruct (s_img s0); [reflexivity | contradiction]. Qed.
+Proof. intros s0 inp H. unfold load_globals, load_globals_gen. leaves. destruct (s_img s0); [reflexivity | contradiction]. Qed.
 
 (* and an exception inside _load_aux_image leaves the raw image behind, so the next call is a no-op as well *)
 Lemma failed_load_sticks : forall inp s inp', globals bane inp = (s, false) -> select inp <> None ->
@@ -270,19 +284,40 @@ Lemma bane_not_consulted : forall bane bane' s0 inp,
   (is_some (i_rmsin inp) && is_some (i_bkgin inp) || is_some (i_rms inp) && is_some (i_bkg inp)) = true ->
   load_globals bane s0 inp = load_globals bane' s0 inp.
 Proof.
-  intros bane bane' s0 inp H. unfold load_globals. leaves.
+  intros bane bane' s0 inp H. unfold load_globals, load_globals_gen. leaves.
   destruct (i_rmsin inp), (i_bkgin inp); cbn [is_some andb negb orb] in *; try reflexivity;
     (destruct (i_rms inp) as [r|], (i_bkg inp) as [b|]; cbn [is_some andb orb] in H; try discriminate;
      unfold make_bkg_rms; leaves; cbn [is_some pick Z.eqb Pos.eqb andb]; reflexivity).
 Qed.
 
+(* ------------------------------------------------------------------ cube_index not given *)
+Lemma cube_default_gen : forall bane s0 inp, i_ci inp = None ->
+  load_globals_gen bane true s0 inp = load_globals_gen bane true s0 (set_ci inp (Some 0%nat)).
+Proof.
+  intros bane s0 inp H. unfold load_globals_gen, select_gen, replace, set_ci. cbn [i_is3d i_planes i_ci i_rms i_bkg i_rmsin i_bkgin
+    i_do_curve i_mask]. rewrite H. reflexivity.
+Qed.
+Lemma cube_default_first_plane : forall bane s0 inp, i_ci inp = None ->
+  load_globals bane s0 inp = load_globals bane s0 (set_ci inp (Some 0%nat)) /\
+  (forall s, s_img s0 = None -> load_globals bane s0 inp = (s, true) -> s_ci s = Some 0%nat).
+Proof.
+  intros bane s0 inp H. unfold load_globals. rewrite lg_cube_default_eq. split; [apply cube_default_gen; exact H|].
+  intros s H0 Hs. apply load_globals_gen_char in Hs; [|exact H0]. destruct (select_gen true inp); [|destruct Hs; discriminate].
+  destruct Hs as [_ ->]. cbn [s_ci]. rewrite H. reflexivity.
+Qed.
+(* without the default a 3-D file read with cube_index = None raises and nothing is stored *)
+Lemma cube_none_raises_gen : forall bane inp, i_is3d inp = true -> i_ci inp = None -> load_globals_gen bane false fresh inp = (fresh, false).
+Proof.
+  intros bane inp H3 H. unfold load_globals_gen, select_gen. leaves. cbn [fresh s_img is_some andb]. rewrite H3, H. reflexivity.
+Qed.
+
 (* ------------------------------------------------------------------ negation *)
 Lemma select_neg : forall inp, select (neg_inputs inp) = option_map img_neg (select inp).
 Proof.
-  intro inp. unfold select, neg_inputs. cbn.
+  intro inp. unfold select, select_gen, neg_inputs. cbn.
   assert (N : forall k, nth_error (map img_neg (i_planes inp)) k = option_map img_neg (nth_error (i_planes inp) k))
     by (intro k; apply nth_error_map).
-  destruct (i_is3d inp); [destruct (i_ci inp); [apply N | reflexivity] | exact (N 0%nat)].
+  destruct (i_is3d inp); [destruct (eff_ci_gen lg_cube_default_first_plane (i_ci inp)); [apply N | reflexivity] | exact (N 0%nat)].
 Qed.
 
 Lemma negation : forall bane, (forall a, bane (img_neg a) = (img_neg (fst (bane a)), snd (bane a))) ->
